@@ -204,9 +204,85 @@ def early_stop_cell(cell):
     return res
 
 
+def scripted_fault_case(case):
+    """Scripted losses (C14's device: the model returns the script, the loss is |value|), a convergence precision, and the loss
+    failing at invocation k. The discarded batch must leave NO trace: the next calibrate(3) stops exactly when the RECORDED losses
+    say so (a loss computed for the discarded batch is not a recorded loss)."""
+    from black_it.calibrator import Calibrator
+    from black_it.loss_functions.minkowski import MinkowskiLoss
+    from black_it.samplers.random_uniform import RandomUniformSampler
+    from vf.checks.c14 import converged
+
+    script, bs, p, k = case["script"], case["bs"], case["p"], case["k"]
+    models.reset(script=list(script) + [5.0])
+    rec = C.Recorder(fault={"loss": k})
+    v = []
+    with rec:
+        with quiet():
+            cal = Calibrator(loss_function=MinkowskiLoss(p=1), real_data=np.zeros((1, 1)), model=models.model_script, parameters_bounds=[[0.0], [1.0]],
+                             parameters_precision=[0.001], ensemble_size=1, samplers=[RandomUniformSampler(batch_size=bs)], sim_length=1,
+                             convergence_precision=p, verbose=case.get("verbose", False), saving_folder=None, random_state=0, n_jobs=1)
+        caught = None
+        try:
+            with quiet():
+                cal.calibrate(2)
+        except C.InjectedFault as e:
+            caught = e
+        if caught is None:
+            return [], False   # converged before the k-th loss invocation: nothing injected
+        nb = cal.current_batch_index
+        recorded = [abs(x) for x in script[:nb * bs]]
+        if cal.losses_samp.tolist() != recorded or cal.n_sampled_params != nb * bs:
+            return [("history-not-prefix", f"after the fault: losses {cal.losses_samp.tolist()}, {nb} completed batches of the script give {recorded}")], True
+        rec.fault = {}
+        try:
+            with quiet():
+                cal.calibrate(3)
+        except Exception as e:  # noqa: BLE001
+            return [("scheduler-unusable", f"the next calibrate(3) raised {type(e).__name__}: {e}")], True
+        # reference: script positions consumed so far = (nb + 1) * bs (the failed batch was simulated); afterwards the tail value 5.0
+        full = list(script) + [5.0] * (6 * bs)
+        exp, ran = list(recorded), 0
+        pos = (nb + 1) * bs
+        for _ in range(3):
+            exp += [abs(x) for x in full[pos:pos + bs]]
+            pos += bs
+            ran += 1
+            if p is not None and converged(min(exp), p):
+                break
+        if cal.current_batch_index != nb + ran:
+            key = "stopped-early-after-fault" if cal.current_batch_index < nb + ran else "stopped-late-after-fault"
+            v.append((key, f"after a failed batch the next calibrate(3) ran {cal.current_batch_index - nb} batch(es); the recorded losses {exp} prescribe {ran} (precision {p})"))
+        elif cal.losses_samp.tolist() != exp:
+            v.append(("next-batch-misaligned", f"losses after the retry {cal.losses_samp.tolist()} != {exp}"))
+    return v, True
+
+
+def scripted_fault_cell(cell):
+    res = {"evaluations": 0, "nontrivial": 0, "states": 0, "transitions": 0, "traces": 0, "stats": {}, "outcomes": set(), "violations": [], "samples": []}
+    for case in cell["cases"]:
+        vs, fired = scripted_fault_case(case)
+        res["stats"]["scripted_fault_positions_tried"] = res["stats"].get("scripted_fault_positions_tried", 0) + 1
+        if not fired:
+            continue
+        res["evaluations"] += 1
+        res["traces"] += 1
+        res["transitions"] += 5
+        res["nontrivial"] += 1
+        res["outcomes"].add(("scripted-fault", case["k"] % case["bs"] > 0))
+        for key, what in vs:
+            if sum(1 for x in res["violations"] if x["key"] == key) < 1:
+                res["violations"].append({"key": key, "what": f"[scripted losses {case['script']}, batch size {case['bs']}, precision {case['p']}, loss failing at invocation #{case['k']}] {what}", "case": dict(case, mode="scripted-fault")})
+    res["states"] = res["evaluations"]
+    res["outcomes"] = sorted(res["outcomes"], key=repr)
+    return res
+
+
 def run_cell(cell):
     if cell.get("kind") == "early-stop":
         return early_stop_cell(cell)
+    if cell.get("kind") == "scripted-fault":
+        return scripted_fault_cell(cell)
     res = {"evaluations": 0, "nontrivial": 0, "states": 0, "transitions": 0, "traces": 0, "stats": {}, "outcomes": set(), "violations": [], "samples": []}
     cfg, n, rl = cell["cfg"], cell["n"], "scheduler" in cell["cfg"]
     twin = fault_free(cfg, n, rl)
@@ -251,6 +327,8 @@ def replay_case(case):
     if case.get("mode") == "early-stop":
         r = early_stop_cell({"cfg": case["cfg"], "n": case["n"], "bound": 1})
         return [{"key": v["key"], "what": v["what"]} for v in r["violations"]]
+    if case.get("mode") == "scripted-fault":
+        return [{"key": k, "what": w} for k, w in scripted_fault_case(case)[0]]
     rl = "scheduler" in case["cfg"]
     twin = fault_free(case["cfg"], case["n"], rl)
     vs, _, _ = run_fault(case["cfg"], case["source"], case["k"], case["n"], twin, prefix=case.get("schedule"), folder=case.get("folder", False))
@@ -278,8 +356,19 @@ def main(ctx):
     for i in range(0, len(allf), 8):
         cells.append({"cfg": hb, "n": n, "faults": allf[i:i + 8], "folder": False})
     cells.append({"kind": "early-stop", "cfg": base_cfg("rl", S, 1), "n": 6, "bound": 1 if ctx.quick else 2})
+    # scripted losses x convergence precision x the loss failing at every invocation of the first two batches
+    import itertools
+
+    sc = []
+    for bs in (2, 3):
+        for script in itertools.product((4.0, 0.3, 0.0) if bs == 2 or not ctx.quick else (4.0, 0.0), repeat=2 * bs):
+            for p in (0, None):
+                for k in range(2 * bs):
+                    sc.append({"script": list(script), "bs": bs, "p": p, "k": k, "verbose": (k + bs) % 2 == 0})
+    for i in range(16):
+        cells.append({"kind": "scripted-fault", "cases": sc[i::16]})
     ctx.bounds = {"batches": n, "ensemble": ens, "early_stop": "RL scheduler left through the convergence break (no fault), every interleaving modulo independence", "lineup": [s["cls"] for s in LINEUP], "fault_sources": ["model", "loss", "sampler", "interrupt (a KeyboardInterrupt subclass raised by the model)"],
-                  "fault_positions": len(allf), "rr": "with and without saving folder", "rl": "every interleaving modulo commutation of independent steps (sleep sets), capped at 2000 per fault position"}
+                  "fault_positions": len(allf), "scripted_losses_with_a_failing_loss": len(sc), "rr": "with and without saving folder", "rl": "every interleaving modulo commutation of independent steps (sleep sets), capped at 2000 per fault position"}
     ctx.rule = "one execution per (scheduler, folder, fault source, invocation index[, schedule]); every one injects exactly one fault"
     ctx.assumptions = ["n_jobs=1 (the fault position must be owned)", "RL + saving folder is not reachable (C04 known finding)"]
     try:
@@ -288,4 +377,5 @@ def main(ctx):
         raise HarnessError(str(e)) from e
     ctx.require(ctx.stats.get("fault_positions_tried", 0) >= 3 * len(allf) and ctx.evaluations >= 2 * len(allf), "too few fault positions")
     ctx.require(any(o[0] == "rl" for o in ctx.outcomes) and any(o[0] == "rr" for o in ctx.outcomes), "one scheduler kind was not exercised")
+    ctx.require(("scripted-fault", True) in ctx.outcomes, "no loss fault at a within-batch position >= 1 was injected in the scripted cell")
     ctx.require(("early-stop", True) in ctx.outcomes, "the convergence break was never taken under the RL scheduler")
